@@ -331,7 +331,15 @@ class GridSpec:
         pi = math.pi
         tsz = pi * R * (2 ** (1 - zoom))  # in meters
         x, y = -pi * R, pi * R  # top-left corner of tile 0,0
-        tile0 = geom.box(x, y - tsz, x + tsz, y, "epsg:3857")
         shape = (npix, npix)
 
-        return GridSpec.from_sample_tile(tile0, shape=shape, idx=(0, 0), flipy=True)
+        # built from the tile size itself: recovering it from the edges of tile (0, 0) loses the
+        # last bits of it, and that error is multiplied by the tile index (0.2 pixels at zoom 22)
+        res = tsz / npix
+        return GridSpec(
+            "epsg:3857",
+            shape,
+            resolution=resyx_(-res, res),
+            origin=xy_(x, y - tsz),
+            flipy=True,
+        )
